@@ -2,6 +2,8 @@
 migrations raise at a chosen point, on SQLite in default pysqlite mode and with the documented transactional recipe
 (isolation_level=None + BEGIN on the `begin` event), vs Model.Txn.txn_run.  A fresh connection reads alembic_version and
 sqlite_master afterwards."""
+import contextlib
+import io
 import itertools
 import os
 import random
@@ -40,7 +42,8 @@ RULE = ("exhaustive small scope: {pysqlite default, transactional recipe} x tran
         "before and after an autocommit section, before each statement inside it, at its end, and in the on_version_apply "
         "callback after the bookkeeping) plus the run without failure; the exception raised is an Exception subclass, "
         "KeyboardInterrupt or SystemExit (all three for callback failures and 1-migration histories, rotating otherwise); "
-        "thorough adds seeded random histories of up to 5 migrations with up to 4 items and random autocommit sections. "
+        "the same histories and body failure positions are also run through the REAL alembic/templates/generic/env.py of the "
+        "tree under test (command.init -t generic, default settings, default pysqlite); thorough adds seeded random histories of up to 5 migrations with up to 4 items and random autocommit sections. "
         "non-trivial = a migration raised; distinct by encoded input")
 EXHAUSTIVE = {"quick": True, "thorough": True}
 DESIGN_REF = "DESIGN.md section 5 C04"
@@ -129,6 +132,16 @@ def _cases_for(revs, tag, all_excs=False, rot=[0]):
                            "revs": revs, "fail": fail, "exc": exc, "tag": tag}
 
 
+def _template_cases(revs, tag, rot):
+    """the REAL alembic/templates/generic/env.py of the tree under test (command.init), default settings"""
+    for c in _cases_for(revs, tag, False, rot):
+        if c["kind"] == "pysqlite" and c["tddl"] is False and c["tpm"] is False and c["external"] is False \
+                and (c["fail"] is None or c["fail"][1] != "cb"):
+            c = dict(c)
+            c["env"] = "template"
+            yield c
+
+
 def _rand_history(rnd):
     n = rnd.randint(1, 5)
     lays = []
@@ -154,12 +167,17 @@ def generate(tier, seed):
     hs += [([P[0], A1, P[3]], "n3-auto", False)]
     for lays, tag, allx in hs:
         yield from _cases_for(_mk_history(lays), tag, allx, rot)
+    for lays, tag, allx in hs:
+        yield from _template_cases(_mk_history(lays), tag + "-template", rot)
     if tier == "thorough":
         rnd = random.Random(seed * 7919 + 4)
         for _ in range(60):
             revs = _rand_history(rnd)
             cs = list(_cases_for(revs, "random", False, rot))
             for c in rnd.sample(cs, min(len(cs), 400)):
+                yield c
+            ts = list(_template_cases(revs, "random-template", rot))
+            for c in rnd.sample(ts, min(len(ts), 40)):
                 yield c
 
 
@@ -306,11 +324,27 @@ def run_case(h):
     exc_cls = {"exc": Boom, "kbd": KeyboardInterrupt, "exit": SystemExit}[h.get("exc", "exc")]
     d = tempfile.mkdtemp(prefix="avc04", dir="/dev/shm" if os.path.isdir("/dev/shm") and os.access("/dev/shm", os.W_OK) else None)
     try:
-        os.makedirs(os.path.join(d, "versions"))
-        open(os.path.join(d, "script.py.mako"), "w").write("")
-        open(os.path.join(d, "env.py"), "w").write(ENV_PY)
+        template = h.get("env") == "template"
+        if template:
+            # the stock environment: alembic init -t generic, from the tree under test
+            ini = os.path.join(d, "alembic.ini")
+            c_init = Config(ini)
+            c_init.stdout = io.StringIO()
+            sdir = os.path.join(d, "scripts")
+            c_init.set_main_option("script_location", sdir)
+            with contextlib.redirect_stdout(io.StringIO()):
+                command.init(c_init, sdir, template="generic")
+            src = os.path.join(os.path.dirname(os.path.realpath(command.__file__)), "templates", "generic", "env.py")
+            if open(src).read() != open(os.path.join(sdir, "env.py")).read():
+                raise RuntimeError("command.init did not copy the generic env.py of the tree under test")
+            vdir = os.path.join(sdir, "versions")
+        else:
+            os.makedirs(os.path.join(d, "versions"))
+            open(os.path.join(d, "script.py.mako"), "w").write("")
+            open(os.path.join(d, "env.py"), "w").write(ENV_PY)
+            vdir = os.path.join(d, "versions")
         for j, r in enumerate(revs, 1):
-            open(os.path.join(d, "versions", "r%d.py" % j), "w").write(
+            open(os.path.join(vdir, "r%d.py" % j), "w").write(
                 "from alembic import op, context\nrevision = 'r%d'\ndown_revision = %r\n\n"
                 "def _f(direction, p):\n"
                 "    f = context.config.attributes.get('fail')\n"
@@ -325,15 +359,31 @@ def run_case(h):
         con.close()
 
         def cfg(fail):
-            c = Config()
-            c.set_main_option("script_location", d)
+            if template:
+                c = Config(ini)
+                c.stdout = io.StringIO()
+                c.set_main_option("script_location", sdir)
+                c.set_main_option("sqlalchemy.url", url)
+            else:
+                c = Config()
+                c.set_main_option("script_location", d)
             c.attributes.update(url=url, kind=h["kind"], tpm=h["tpm"], tddl=h["tddl"], external=h["external"],
                                 fail=fail, exc=exc_cls)
             return c
 
         # set-up: bring the database to the starting revision (a run without failure, default settings)
         if h["from"] > 0:
-            c0 = cfg(None)
+            if template:          # set-up with the harness's own env.py, in a second script directory over the same versions
+                c0 = Config()
+                s0 = os.path.join(d, "setup")
+                os.makedirs(s0)
+                open(os.path.join(s0, "script.py.mako"), "w").write("")
+                open(os.path.join(s0, "env.py"), "w").write(ENV_PY)
+                c0.set_main_option("script_location", s0)
+                c0.set_main_option("version_locations", vdir)
+                c0.attributes.update(url=url, kind="pysqlite", fail=None, exc=exc_cls)
+            else:
+                c0 = cfg(None)
             c0.attributes.update(tpm=True, tddl=None, external=False)
             command.upgrade(c0, "r%d" % h["from"])
         before = _state(url)
@@ -385,7 +435,7 @@ def run_case(h):
         {"exc": "ExcException", "kbd": "ExcKeyboardInterrupt", "exit": "ExcSystemExit"}[h.get("exc", "exc")])
     cout = "(mkOut %s %s)" % (_db(after), cf.boolean(raised is not None))
     one = h["external"] or (eff_tddl and not h["tpm"])
-    shape = "%s-%s-%s%s-%s" % (h["kind"], h["cmd"], "one-txn" if one else "per-migration", "-autocommit" if has_auto else "",
+    shape = "%s%s-%s-%s%s-%s" % ("generic-template-" if h.get("env") == "template" else "", h["kind"], h["cmd"], "one-txn" if one else "per-migration", "-autocommit" if has_auto else "",
                                "ok" if h["fail"] is None else ("fail-cb" if h["fail"][1] == "cb" else "fail-body") +
                                ("" if h.get("exc", "exc") == "exc" else "-BaseException"))
     return dict(cin=cin, cout=cout, out={"before": before, "after": after, "raised": raised},
